@@ -280,7 +280,9 @@ Definition c12_py_member_uses (tvs : list str) (m : py_member) : list str :=
 
 Definition c12_py_decl_uses (tvs : list str) (d : py_decl) : list str :=
   match d with
-  | PYAlias _ _ gs ty => gs ++ c12_py_tuses tvs ty
+  (* `Name = <type>`: the generic parameters of an alias are not spelled after its name (since the repair of
+     write_type_alias, python.rs:283); they are used where the type mentions them *)
+  | PYAlias _ _ _ ty => c12_py_tuses tvs ty
   | PYConst _ ty _ => c12_py_tuses tvs ty
   | PYClass _ _ gs config ms =>
     lit "BaseModel" :: match gs with [] => [] | _ => lit "Generic" :: gs end ++
@@ -308,16 +310,9 @@ Definition c12_py_tv_vocab (items : list ritem) : list str :=
                       | ItAlias a => agenerics a
                       | _ => []            (* a unit enum prints no type parameters and declares none *)
                       end) items.
-(* ... and those for which a TypeVar is declared: structs and algebraic enums *)
-Definition c12_py_tv_declared (items : list ritem) : list str :=
-  flat_map (fun it => match it with
-                      | ItStruct s => sgenerics s
-                      | ItEnum (EAlgebraic _ _ sh) => egenerics sh
-                      | _ => []
-                      end) items.
-
 Definition c12_py_is_custom (m : str) : bool := str_eqb m (lit "bytes") || str_eqb m (lit "datetime").
-(* Some P: the whole type prints as P, one of the two types with (de)serialiser functions *)
+(* Some P: the whole type prints as P, one of the two types with (de)serialiser functions: the text write_field
+   registers for a field of this type (the proofs' invariant on the translation set; no class is decided by it) *)
 Definition c12_py_custom (tm : tmap) (t : rtype) : option str :=
   let mapped k := match tmap_get tm k with
                   | Some m => if c12_py_is_custom m then Some m else None
@@ -351,31 +346,14 @@ Definition c12_item_fields (it : ritem) : list rfield :=
   | ItEnum e => flat_map (fun v => match v with VAnon fs _ => fs | _ => [] end) (evariants (enum_shared e))
   | _ => []
   end.
-Definition c12_py_wrapped (f : rfield) : bool := has_default f && negb (is_optional (fty f)).
-(* C12-python-default-translation: a serde(default) field of a non-Option type that prints as
-   bytes / datetime is annotated with the (de)serialiser functions, but what write_field registers is
-   the text `Optional[..]`, for which no functions exist; they are missing unless something else in
-   the file registers the plain type *)
-Definition c12_py_default_translation (tm : tmap) (items : list ritem) : bool :=
-  let fields := flat_map c12_item_fields items in
-  existsb (fun f => c12_py_wrapped f &&
-                    match c12_py_custom tm (fty f) with
-                    | Some p =>
-                      negb (existsb (fun g => negb (c12_py_wrapped g) &&
-                                              match c12_py_custom tm (fty g) with Some q => str_eqb p q | None => false end) fields ||
-                            mem_str p (flat_map (c12_py_registers tm) (flat_map c12_item_types items)))
-                    | None => false
-                    end) fields.
-(* C12-python-alias-typevar: a generic alias `N[T] = ..` for whose parameter no TypeVar is declared *)
-Definition c12_py_alias_typevar (items : list ritem) : bool :=
-  existsb (fun it => match it with
-                     | ItAlias a => existsb (fun g => negb (mem_str g (c12_py_tv_declared items))) (agenerics a)
-                     | _ => false
-                     end) items.
-Definition c12_py_known (cfg : py_config) (pd : parsed) : option string :=
-  if c12_py_alias_typevar (items_of pd) then Some "C12-python-alias-typevar"%string
-  else if c12_py_default_translation (py_type_mappings cfg) (items_of pd) then Some "C12-python-default-translation"%string
-  else None.
+(* The two classes of the unchanged tree are FIXED in /repo:
+   C12-python-default-translation (a serde(default) field of a non-Option type that prints as bytes / datetime:
+   write_field registered the text `Optional[..]`, for which no helper functions exist) - write_field now registers
+   the type the translation was found for;
+   C12-python-alias-typevar (a generic alias whose parameter no struct / algebraic enum declares: no TypeVar) -
+   write_type_alias now calls add_type_var for every parameter of the alias.
+   There is no recorded class left for Python.  Kept as the constant the driver reports. *)
+Definition c12_py_known (cfg : py_config) (pd : parsed) : option string := None.
 (* user type names avoid the reserved words; no type is mapped to `datetime` (the mapped text would be
    used without the import that the DateTime translation brings) *)
 Definition c12_py_dom (cfg : py_config) (items : list ritem) : bool :=
